@@ -31,7 +31,7 @@ RULE = ("designs from a seeded generator: module trees of depth <= 3 (some modul
         "(signals, ports, submodules, instance types / ports / parameters / attributes, memories, IOPorts, domains) drawn also from "
         "x.y a[0] a#b a\"b a\\b and non-ASCII, and at 3 % of the designs from names containing whitespace; struct / array / enum shaped "
         "signals (one wire per field) with field names that clash with signal names; AnyConst / AnySeq / Initial, ClockSignal / "
-        "ResetSignal leaves; zero-width IOPorts (3 %); half of the designs with emit_src left at its default; only designs "
+        "ResetSignal leaves; zero-width IOPorts (5 %); half of the designs with emit_src left at its default; only designs "
         "rejected with DriverConflict / CombinationalCycle / DomainError are skipped (counted), any other exception is a case; "
         "plus a fixed list of hand-written designs (every naming site x odd / whitespace names, field-wire clashes, x.y vs x/y). Every emitted "
         "document is validated by wf_doc. Negative corpus: hand-corrupted texts and single-point corruptions of emitted documents "
@@ -912,7 +912,8 @@ def known_finding(case, obs, model):
         import re
         if name is not None and re.fullmatch(r"port\$\d+\$\d+", name) and name in user:
             return "C07-port-name-collision"
-    if kind == "AssertionError" and fn == "_name" and caller == "wire" and name is not None and name.startswith("\\"):
+    if kind == "AssertionError" and fn == "_name" and caller in ("wire", "cell", "memory") and name is not None \
+            and name.startswith("\\"):
         # `assert name not in self.contents` for the wire of a struct/array field: the same wire name is produced twice
         # (by two fields, possibly of two signals) or is also the name of a user signal.  The signal's own name may have
         # been de-duplicated to <given>$<n>.
@@ -926,7 +927,14 @@ def known_finding(case, obs, model):
                     prefix = n[:len(n) - len(f)]
                     if prefix == x["n"] or prefix.startswith(x["n"] + "$"):
                         hits += 1
-        if hits >= 2 or (hits == 1 and n in user):
+        import re
+        items = {it[2] for m in D["mods"] for it in m["items"] if it[2] is not None}
+        base = re.sub(r"\$\d+$", "", n)
+        if caller == "wire" and (hits >= 2 or (hits == 1 and n in user)):
+            return "C07-field-wire-name-collision"
+        if caller in ("cell", "memory") and hits >= 1 and (n in items or base in items):
+            # same mechanism, seen from the other side: a submodule / instance / memory whose (reserved) name equals a
+            # field wire declared earlier by emit_signal_fields
             return "C07-field-wire-name-collision"
     if kind == "AssertionError" and fn == "module" and name is not None:
         # rtlil.Design.module: two different hierarchy paths have the same dotted name
@@ -937,8 +945,6 @@ def known_finding(case, obs, model):
         same = [p for p in paths if ".".join(p) == name]
         if len(set(same)) >= 2:
             return "C07-dotted-module-name-collision"
-    if kind == "IndexError" and caller == "emit_io_port_wires" and any(x["w"] == 0 for x in D["ios"]):
-        return "C07-zero-width-ioport"
     return None
 
 
@@ -1566,7 +1572,7 @@ def fixed_designs():
     inv = lambda o, a: ["eq", ["s", o], ["u", "~", ["s", a]]]
     # names with whitespace at every naming site (the emitted text does not parse: finding C07-whitespace-in-names), and
     # odd but legal names at the same sites
-    for nmx in ["a b", "a\nb", "a\tb", " a", "x.y", "a[0]", 'a"b', "a\\b", "\u00e9"]:
+    for nmx in ["a b", "a\nb", "x.y", 'a"b']:
         out.append({"sigs": [S(nmx, 2), S("o", 2)], "ios": [], "mods": [M(st=[["comb", [inv(1, 0)]]])], "ports": P(2)})
         out.append({"sigs": [S("a", 2), S("o", 2)], "ios": [], "mods": [M(st=[["comb", [inv(1, 0)]]])],
                     "ports": [["s", 0, nmx, None], ["s", 1, None, None]]})
@@ -1610,7 +1616,10 @@ def fixed_designs():
                                          ["eq", ["s", 3], ["any", "const", 0]], ["eq", ["clk", "d"], ["s", 4]], ["eq", ["s", 5], ["clk", "sync"]],
                                          ["eq", ["s", 6], ["rstsig", "sync"]]]],
                                ["d", [["eq", ["s", 7], ["u", "~", ["s", 7]]]]]])], "ports": P(8)})
-    # zero-width IOPort: buffer, unused explicit port, instance (finding C07-zero-width-ioport)
+    # zero-width IOPort: buffer, unused explicit port, instance (used to raise IndexError; repaired in 26cc887: the port
+    # becomes an empty wire and the document must be well-formed)
+    out.append({"sigs": [S("o", 1)], "ios": [{"n": "p", "w": 0}], "mods": [M(st=[["comb", [["eq", ["s", 0], ["c", 1, 1, False]]]]])],
+                "ports": [["s", 0, None, None], ["io", 0, None, None]]})
     out.append({"sigs": [S("o", 0)], "ios": [{"n": "p", "w": 0}],
                 "mods": [M(items=[["buf", {"port": ["io", 0], "i": ["s", 0], "o": None, "oe": None}, None]])], "ports": [["s", 0, None, None], ["io", 0, None, None]]})
     out.append({"sigs": [S("o", 1)], "ios": [{"n": "p", "w": 0}],
@@ -1797,7 +1806,10 @@ def mutate(rng, doc, ex):
                 if x[0] == "int":
                     d, e = clone()
                     n = x[1]
-                    e[fi][key][pi][1] = ["int", rng.choice([n + 1, n - 1, -n - 1, n ^ (1 << max(0, n.bit_length() - 1)), n + (1 << 32)])]
+                    # attributes are written without a `signed` marker, so e.g. -10 and 4294967286 are the same text
+                    # (32'1...0110): an attribute mutation must change the low bit to be distinguishable at all
+                    e[fi][key][pi][1] = ["int", rng.choice([n + 1, n - 1, -n - 1, n ^ (1 << max(0, n.bit_length() - 1)), n + (1 << 32)]
+                                                           if key == "params" else [n + 1, n - 1, n ^ 1])]
                     out.append((f"mut-instance-{key[:-1]}-value", d, e))
                     break
         for mi2, m2 in enumerate(mods):
@@ -1861,14 +1873,14 @@ def gen_cases(tier, seed):
         cases.append({"kind": "design_text", "why": why, "text": text})
     for why, text in HAND_NEG:
         cases.append({"kind": "neg", "why": why, "text": text})
-    n_designs = 300 if not thorough else 2000
-    n_mut_src = 16 if not thorough else 100
+    n_designs = 260 if not thorough else 2000
+    n_mut_src = 12 if not thorough else 100
     made = 0
     skipped = 0
     skipped_by = {}
     mut_pool = []
     while made < n_designs:
-        D = gen_design(rng, dollar=(rng.random() < 0.06), ws=(rng.random() < 0.03), zio=(rng.random() < 0.03))
+        D = gen_design(rng, dollar=(rng.random() < 0.06), ws=(rng.random() < 0.03), zio=(rng.random() < 0.05))
         ok, err = legal(D)
         if not ok:
             skipped += 1
